@@ -958,6 +958,7 @@ fn pick_thr(r: &mut Rng, total: u64) -> Thr {
                 1 => 1,
                 2 => 1_000_000_000_000_000_000,
                 3 => 300_000_000_000_000_000,
+                4 => 800_000_000_000_000_000,
                 _ => 400_000_000_000_000_000,
             }),
         ),
@@ -988,6 +989,33 @@ pub fn generate(seed: u64, case: u64, max_steps: usize) -> Ran {
         };
         voters.push((Arg::Id(ids[k]), wgt));
     }
+    // a history near the 64-bit edge of the weights (sums that overflow, thresholds on huge totals)
+    let big = r.chance(1, 8);
+    if big {
+        for v in voters.iter_mut() {
+            v.1 = match r.below(6) {
+                0 => u64::MAX - 3,
+                1 => u64::MAX / 2,
+                2 => 1u64 << 63,
+                3 => 40_000_000_000,
+                4 => 1 + r.below(5),
+                _ => u64::MAX / 5,
+            };
+        }
+    }
+    if big && flex {
+        // the group must exist: keep the members' sum within u64 (filling it exactly when it would overflow)
+        let mut run = 0u64;
+        for v in voters.iter_mut() {
+            match run.checked_add(v.1) {
+                Some(x) => run = x,
+                None => {
+                    v.1 = u64::MAX - run;
+                    run = u64::MAX;
+                }
+            }
+        }
+    }
     if !flex && r.chance(1, 15) {
         let d = voters[0].clone();
         voters.push(d);
@@ -998,7 +1026,7 @@ pub fn generate(seed: u64, case: u64, max_steps: usize) -> Ran {
     if r.chance(1, 50) {
         voters.clear();
     }
-    let total: u64 = voters.iter().map(|v| v.1).sum();
+    let total: u64 = voters.iter().fold(0u64, |a, v| a.saturating_add(v.1));
     let threshold = pick_thr(&mut r, total);
     let period = match r.below(8) {
         0 => Dur::T(3 + r.below(6)),
@@ -1071,7 +1099,7 @@ pub fn generate(seed: u64, case: u64, max_steps: usize) -> Ran {
         } else if flex && kind < 8 {
             let mut add = vec![];
             for _ in 0..r.below(3) {
-                add.push((r.below(n as u64) as usize, 1 + r.below(12)));
+                add.push((r.below(n as u64) as usize, if big && r.chance(1, 2) { [u64::MAX - 3, u64::MAX / 2, 1u64 << 62, 5][r.below(4) as usize] } else { 1 + r.below(12) }));
             }
             let mut remove = vec![];
             if r.chance(1, 2) && !member_ids.is_empty() {
@@ -1088,7 +1116,17 @@ pub fn generate(seed: u64, case: u64, max_steps: usize) -> Ran {
             let mut msgs = vec![];
             for _ in 0..r.below(3) {
                 msgs.push(match r.below(12) {
-                    0..=4 => PMsg::Bank { to: sink, n: Uint128::new(if r.chance(1, 6) { 5000 } else { 1 + r.below(30) as u128 }) },
+                    0..=4 => PMsg::Bank {
+                        to: sink,
+                        n: Uint128::new(if r.chance(1, 6) {
+                            5000
+                        } else if r.chance(1, if matches!(&deposit, Some(d) if d.tok == Tok::Native && d.refund) { 2 } else { 6 }) {
+                            // drain the multisig (deposits of other proposals included) down to a few coins
+                            last_after.as_ref().map(|o| o.ms_native.saturating_sub(r.below(4) as u128)).unwrap_or(1000).max(1)
+                        } else {
+                            1 + r.below(30) as u128
+                        }),
+                    },
                     5 | 6 => PMsg::SelfExec(pick_id(&mut r)),
                     7 => PMsg::SelfExec(props.len() as u64 + 1),
                     8 => PMsg::SelfClose(pick_id(&mut r)),
@@ -1166,6 +1204,70 @@ pub fn generate(seed: u64, case: u64, max_steps: usize) -> Ran {
         if flex && pending.is_empty() {
             match &step {
                 // a membership change right after the proposal, in its own block, then a vote by the changed member
+                // refundable native deposit: a second proposal drains the multisig (its own deposit is returned first), is
+                // voted through and executed; the first one is closed after it has expired, while the balance is short
+                Step::Call { h, t, op: Op::Propose { .. }, .. }
+                    if new_prop.is_some() && matches!(&deposit, Some(d) if d.tok == Tok::Native && d.refund && !d.amount.is_zero()) && r.chance(1, 3) =>
+                {
+                    let (pid, proposer) = new_prop.unwrap();
+                    let d = deposit.as_ref().unwrap().amount;
+                    let others: Vec<usize> = member_ids.iter().cloned().filter(|m| *m != proposer).collect();
+                    if !others.is_empty() {
+                        let m2 = others[0];
+                        let bal = last_after.as_ref().map(|o| o.ms_native).unwrap_or(0);
+                        let n = Uint128::new(bal.saturating_sub(r.below(d.u128().min(5) as u64) as u128).max(1));
+                        title += 1;
+                        pending.push_back(Step::Call {
+                            h: *h,
+                            t: *t,
+                            s: m2,
+                            op: Op::Propose { title, msgs: vec![PMsg::Bank { to: sink, n }], latest: None, funds: vec![(0, d)], allow: None },
+                        });
+                        for m in member_ids.iter().cloned().filter(|m| *m != m2) {
+                            pending.push_back(Step::Call { h: *h, t: *t, s: m, op: Op::Vote { id: pid + 1, v: V::Yes } });
+                        }
+                        pending.push_back(Step::Call { h: *h, t: *t, s: m2, op: Op::Execute { id: pid + 1 } });
+                        pending.push_back(Step::Call { h: *h + 12, t: *t + 12_000_000_000, s: m2, op: Op::Close { id: pid } });
+                    }
+                }
+                // a full round: every other member votes at once (abstentions and vetoes well represented),
+                // so that quorum and threshold boundaries are reached, then somebody tries to execute
+                Step::Call { h, t, op: Op::Propose { .. }, .. }
+                    if new_prop.is_some()
+                        && (r.chance(1, if matches!(ran.trace.init.threshold, Thr::Quorum(..)) { 3 } else { 5 }) || (voters.iter().any(|(a, wt)| *a == Arg::Id(new_prop.unwrap().1) && *wt == 0) && r.chance(1, 2))) =>
+                {
+                    let (pid, proposer) = new_prop.unwrap();
+                    let zero_proposer = voters.iter().any(|(a, wt)| *a == Arg::Id(proposer) && *wt == 0);
+                    // 0, 1: mixed; 2: everybody abstains; 3: yes votes first, vetoes last
+                    let mode = if zero_proposer && r.chance(1, 2) {
+                        2
+                    } else if matches!(ran.trace.init.threshold, Thr::Quorum(..)) && r.chance(1, 2) {
+                        3
+                    } else {
+                        r.below(4)
+                    };
+                    let others: Vec<usize> = member_ids.iter().cloned().filter(|m| *m != proposer).collect();
+                    for (k, m) in others.iter().cloned().enumerate() {
+                        let v = match mode {
+                            2 => V::Abstain,
+                            3 => {
+                                if 2 * k < others.len() {
+                                    V::Yes
+                                } else {
+                                    V::Veto
+                                }
+                            }
+                            _ => match r.below(10) {
+                                0..=3 => V::Yes,
+                                4 => V::No,
+                                5 | 6 => V::Abstain,
+                                _ => V::Veto,
+                            },
+                        };
+                        pending.push_back(Step::Call { h: *h, t: *t, s: m, op: Op::Vote { id: pid, v } });
+                    }
+                    pending.push_back(Step::Call { h: *h, t: *t, s: proposer, op: Op::Execute { id: pid } });
+                }
                 Step::Call { h, t, op: Op::Propose { .. }, .. } if new_prop.is_some() && r.chance(1, 4) => {
                     let (pid, proposer) = new_prop.unwrap();
                     let others: Vec<usize> = member_ids.iter().cloned().filter(|m| *m != proposer).collect();
